@@ -7,7 +7,8 @@ ENTRY = dict(
         technique="Lean 4 interleaving machine for get_device_entry and its callers (consumers and user get() calls for any number of "
                   "addresses under the one lock, class loading that completes or raises), mutual-exclusion / one-entry-per-address "
                   "invariant proved for all schedules + trace inclusion against a real AsyncProtocol under a virtual loop with held "
-                  "thread-pool imports",
+                  "thread-pool imports + cancellation machine (C10Cancel: a cancelled creator does not block, single device with cancellations) "
+                  "with cancelled get_device_entry callers / cancel_tasks() histories",
         level_text=(
             "Proof: `C10.per_address_single_device` shows for EVERY interleaving of any number of frame consumers and user get() callers "
             "for any number of addresses, with each class loading completing (or raising) at any point, that per address at most one "
